@@ -366,6 +366,15 @@ func (cs *State) OnStart() error {
 		}
 	}
 
+	// What is written to the WAL during the height that is about to run can be
+	// replayed after a crash only from the end-height marker of the height before.
+	// That marker is missing when the last block did not come through this WAL
+	// (block sync, state sync) or when the node stopped between saving the block
+	// and writing the marker (the handshake has applied the block since).
+	if err := cs.ensureEndHeightMarker(cs.Height - 1); err != nil {
+		return err
+	}
+
 	if err := cs.evsw.Start(); err != nil {
 		return err
 	}
@@ -383,6 +392,27 @@ func (cs *State) OnStart() error {
 	cs.scheduleRound0(cs.GetRoundState())
 
 	return nil
+}
+
+// ensureEndHeightMarker writes the end-height marker of the given (finished)
+// height to the WAL unless it is there.
+func (cs *State) ensureEndHeightMarker(height int64) error {
+	if height < cs.state.InitialHeight {
+		// nothing before the first height: an empty WAL starts with the marker of height 0
+		return nil
+	}
+	gr, found, err := cs.wal.SearchForEndHeight(height, &WALSearchOptions{IgnoreDataCorruptionErrors: true})
+	if err != nil {
+		return err
+	}
+	if gr != nil {
+		gr.Close()
+	}
+	if found {
+		return nil
+	}
+	cs.Logger.Info("WAL has no end-height marker for the last height; writing it", "height", height)
+	return cs.wal.WriteSync(EndHeightMessage{height})
 }
 
 // timeoutRoutine: receive requests for timeouts on tickChan and fire timeouts on tockChan
